@@ -16,7 +16,7 @@ MC_TAGS_QUICK = ["bust", "bust_no_range_data", "bust_raw_truncated", "carry", "c
                  "shared_last_byte", "shrink_moves", "decoded_all", "decoder_error",
                  "op_enc", "op_bin", "op_logp", "op_icdf", "op_uint", "op_bits", "op_patch", "op_shrink"]
 MODEL_INVS = ("Inverse TellEqual TellStable FracMonotone FracVsWhole RngNormalised NoWriteOutside DoneCannotFail "
-              "BudgetNoError FracDefAgrees DecValLtRng SafeDecAgrees NoDecErr").split()
+              "BudgetNoError PatchRefused FracDefAgrees DecValLtRng SafeDecAgrees NoDecErr").split()
 
 
 # ---------------------------------------------------------------------------------------------
@@ -94,10 +94,26 @@ HANDMADE = [
 ]
 
 
+def early_patch_grid():
+    """patches of every width 1..8 issued after 0..7 coded bits (one-bit symbols, one k-bit symbol, or an
+    inexact symbol first), followed by more symbols"""
+    out = []
+    tail = ["logp %d 1" % ((j * 5 + 1) // 3 % 2) for j in range(12)] + ["uint 5 7", "bits 2 2", "logp 0 1"]
+    for n in range(1, 9):
+        v = (0xA5 >> (8 - n)) & ((1 << n) - 1)
+        for k in range(0, 8):
+            ones = ["logp %d 1" % ((k + j) % 2) for j in range(k)]
+            out.append((40, ones + ["patch %d %d" % (v, n)] + tail))
+            if k >= 1:
+                out.append((40, ["bin %d %d %d" % ((1 << k) - 2 if k > 1 else 1, (1 << k) - 1 if k > 1 else 2, k), "patch %d %d" % (v ^ 1, n)] + tail))
+            out.append((40, ["enc 1 2 3"] + ones + ["patch %d %d" % (v, n)] + tail))
+    return out
+
+
 def write_lists(path, covs):
     n = 0
     with open(path, "w") as f:
-        for size, ops in HANDMADE:
+        for size, ops in HANDMADE + early_patch_grid():
             f.write("X %d 255\n%s\nE\n" % (size, "\n".join(ops)))
             n += 1
         for tag, size, ops in covs:
@@ -198,6 +214,10 @@ def scan_trace(ctx, path, st, wanted_lines):
                     st.bump("buffer_full_ok")
                 if e.get("derr"):
                     st.bump("decoder_error_flag")
+                if e.get("pval"):
+                    st.bump("patch_before_renormalisation_accepted")
+                if e.get("pref"):
+                    st.bump("patch_before_renormalisation_refused")
                 if e.get("teq"):
                     st.bump("termination_boundary_full" if e["tb"] == 8 * e["n1"] else
                             "termination_boundary_over" if e["tb"] == 8 * e["n1"] + 1 else "termination_boundary_other")
@@ -320,10 +340,12 @@ def model_runs(ctx, tier):
     """design level: the reduced-width model and the full-width tell_frac formula"""
     jobs = [("RangeDec32_mc", "RangeDec32_mc.cfg", "TellFracFormula, 32768 mantissas (32,8,8,32,3)", dict(workers=4, deadlock=True)),
             ("RangeCoder_mc", "RangeCoder_mc_quick.cfg", "RCLink (12,4,3,8,3) all kinds depth 3", dict(workers=6, deadlock=True)),
-            ("RangeCoder_mc", "RangeCoder_mc_quick_deep.cfg", "RCLink carry alphabet depth 4", dict(workers=6, deadlock=True))]
+            ("RangeCoder_mc", "RangeCoder_mc_quick_deep.cfg", "RCLink carry alphabet depth 4", dict(workers=6, deadlock=True)),
+            ("RangeCoder_mc", "RangeCoder_mc_quick_patch.cfg", "RCLink early-patch alphabet depth 4", dict(workers=4, deadlock=True))]
     if tier == "thorough":
         jobs[0] = ("RangeDec32_mc", "RangeDec32_mc_thorough.cfg", "TellFracFormula + tell on every magnitude, 32768 mantissas", dict(workers=4, deadlock=True))
-        jobs += [("RangeCoder_mc", "RangeCoder_mc_prefix.cfg", "RCLink, patch_initial_bits before 85f44ce1, depth 3", dict(workers=4, deadlock=True)),
+        jobs += [("RangeCoder_mc", "RangeCoder_mc_thorough_patch.cfg", "RCLink early-patch alphabet depth 6", dict(workers=6, deadlock=True, heap="8g")),
+                 ("RangeCoder_mc", "RangeCoder_mc_prefix.cfg", "RCLink, patch_initial_bits before 85f44ce1, depth 3", dict(workers=4, deadlock=True)),
                  ("RangeCoder_mc", "RangeCoder_mc_thorough.cfg", "RCLink wide alphabet depth 3", dict(workers=8, deadlock=True, heap="10g")),
                  ("RangeCoder_mc", "RangeCoder_mc_thorough_b4.cfg", "RCLink all kinds depth 4", dict(workers=6, deadlock=True, heap="8g")),
                  ("RangeCoder_mc", "RangeCoder_mc_thorough_deep.cfg", "RCLink carry alphabet depth 5", dict(workers=6, deadlock=True, heap="8g")),
@@ -380,6 +402,7 @@ def run(ctx):
         "TLC 1.8.0 and the CommunityModules Json reader are trusted",
         "the range ENCODER is modelled exactly only at reduced width (12,4,3,8,3); at full width it is held to the property clauses on recorded executions (TLC integers are 32-bit)",
         "'decoded = encoded' under ec_enc_patch_initial_bits is read as documented in entenc.h: the leading symbols coded with exact power-of-two probabilities decode to the patched bits; executions whose patch is not covered by such symbols are outside the premise",
+        "a patch of n bits issued when ec_tell-1 < n (fewer than n bits coded) must set the error flag (entenc.h: 'the encoder can verify the number of encoded bits is sufficient'); the exact power-of-two symbols that cover a patch must have been coded before the patch call",
         "'finishing cannot fail' is asserted as: tell before ec_enc_done <= 8*size and no patch was refused => error flag 0 after ec_enc_done",
         "memory safety outside the buffer is observed (ASan/UBSan build, canaries, byte comparison of the region beyond a shrunk buffer) on the recorded executions only",
     ]
@@ -467,7 +490,8 @@ def run(ctx):
     ctx.notes["full_width_redecoding_fraction"] = 1.0
     need = ["mext", "crun", "smov", "write_collision", "tell_eq_budget_ok", "patched_ok", "done_failed", "shrunk",
             "uint_ft_ge_2^16", "raw_25_bits", "buffer_full_ok",
-            "termination_boundary_full", "termination_boundary_over", "decoder_on_random_bytes"]
+            "termination_boundary_full", "termination_boundary_over", "decoder_on_random_bytes",
+            "patch_before_renormalisation_accepted", "patch_before_renormalisation_refused"]
     missing = [k for k in need if st.cov.get(k, 0) == 0]
     kinds_missing = [k for k in ("enc", "bin", "logp", "icdf", "icdf16", "uint", "bits", "patch", "shrink") if st.kinds.get(k, 0) == 0]
     if not ctx.violations and (missing or kinds_missing or st.ok_execs < 50 or st.ok_ops < 5000):
